@@ -137,6 +137,136 @@ def _lossy_reads(t: Term, ev: Evaluator) -> list[str]:
     return out
 
 
+_NOFOLD = object()
+
+
+def _fold(t, leaf, value):
+    """Value of a term whose only non-constant leaf is `leaf`, with `leaf` := value; _NOFOLD when a form is outside the small folder."""
+    if t == leaf:
+        return value
+    if not is_term(t):
+        return _NOFOLD
+    h = t[0]
+    if h == "const":
+        return t[1]
+    if h == "ite" and len(t) == 4:
+        c = _fold(t[1], leaf, value)
+        return _NOFOLD if c is _NOFOLD else _fold(t[2] if c else t[3], leaf, value)
+    if h == "isnone" and len(t) == 2:
+        a = _fold(t[1], leaf, value)
+        return _NOFOLD if a is _NOFOLD else a is None
+    if h in ("truth", "nonempty") and len(t) == 2:
+        a = _fold(t[1], leaf, value)
+        return _NOFOLD if a is _NOFOLD else bool(a)
+    if h == "not" and len(t) == 2:
+        a = _fold(t[1], leaf, value)
+        return _NOFOLD if a is _NOFOLD else not a
+    if h in ("and", "or"):
+        xs = t[1] if len(t) == 2 and isinstance(t[1], tuple) and t[1] and is_term(t[1][0]) else t[1:]
+        vals = [_fold(x, leaf, value) for x in xs]
+        if any(v is _NOFOLD for v in vals):
+            return _NOFOLD
+        r = vals[0]
+        for v in vals[1:]:
+            r = (r and v) if h == "and" else (r or v)
+        return r
+    if h in ("eq", "ne", "is", "isnot") and len(t) == 3:
+        a, b = _fold(t[1], leaf, value), _fold(t[2], leaf, value)
+        if a is _NOFOLD or b is _NOFOLD:
+            return _NOFOLD
+        return {"eq": a == b, "ne": a != b, "is": a is b, "isnot": a is not b}[h]
+    if h == "call" and isinstance(t[1], str) and t[1].split(".")[-1] in ("int", "bool", "str", "repr") and len(t[2]) == 1 and not t[3]:
+        a = _fold(t[2][0], leaf, value)
+        if a is _NOFOLD:
+            return _NOFOLD
+        try:
+            return {"int": int, "bool": bool, "str": str, "repr": repr}[t[1].split(".")[-1]](a)
+        except (TypeError, ValueError):
+            return _NOFOLD
+    if h == "tuplelit":
+        vals = tuple(_fold(x, leaf, value) for x in t[1])
+        return _NOFOLD if any(v is _NOFOLD for v in vals) else vals
+    return _NOFOLD
+
+
+def _leaves(t, acc):
+    if not is_term(t):
+        return
+    if t[0] == "const":
+        return
+    if t[0] in ("attr", "var"):
+        acc.add(t)
+        return
+    for x in t[1:]:
+        if is_term(x):
+            _leaves(x, acc)
+        elif isinstance(x, tuple):
+            for y in x:
+                if is_term(y):
+                    _leaves(y, acc)
+                elif isinstance(y, tuple):
+                    for z in y:
+                        _leaves(z, acc) if is_term(z) else acc.add(("?",))
+                elif y is not None and not isinstance(y, (str, int, bool)):
+                    acc.add(("?",))
+        elif x is not None and not isinstance(x, (str, int, bool)):
+            acc.add(("?",))
+
+
+def _tristate_collapses(k: Term, params: set) -> list[str]:
+    """K2 on the one field with a three-valued domain: `star` is None on a plain variable, False / True on a value.  A key component computed
+    from `<x>.star` alone must take different values for the different values of the field -- else a variable and one of its values (or the two
+    values) get the same key although equality tells them apart.  Subscripts of a counterfactual variable are Interventions, whose constructor
+    refuses None: their domain is {False, True}."""
+    out = []
+    seen = set()
+    over_interventions = set()
+    for s_ in subterms(k):
+        if s_[0] == "comp":
+            for pat, it, _cs in s_[3]:
+                core = it
+                while core[0] == "call" and core[2]:
+                    core = core[2][0]
+                if core[0] == "attr" and core[2] == "interventions" and pat[0] == "var":
+                    over_interventions.add(pat)
+        if s_[0] == "lam":
+            pass
+
+    def go(t):
+        if not is_term(t) or t[0] in ("const", "var"):
+            return
+        if t[0] == "attr":
+            return
+        lv: set = set()
+        _leaves(t, lv)
+        if len(lv) == 1:
+            (leaf,) = lv
+            if t[0] in ("isnone", "truth", "nonempty", "not", "and", "or", "eq", "ne", "is", "isnot"):
+                return  # a bare test is a path condition of the evaluator, not a component of the key
+            if leaf[0] == "attr" and leaf[2] == "star" and leaf[1][0] == "var" and t not in seen:
+                seen.add(t)
+                dom = (False, True) if leaf[1] in over_interventions else (None, False, True)
+                vals = [_fold(t, leaf, v) for v in dom]
+                if not any(v is _NOFOLD for v in vals):
+                    rep = [repr(v) for v in vals]
+                    if len(set(rep)) < len(rep):
+                        pairs = [f"star={dom[i]!r} and star={dom[j]!r} both give {rep[i]}" for i in range(len(dom)) for j in range(i + 1, len(dom)) if rep[i] == rep[j]]
+                        out.append(f"`{show(t)[:80]}` is not one-to-one on the values of `{show(leaf)}`: " + "; ".join(pairs))
+                return  # a piece of a form the folder does not read is not judged by its parts
+        for x in t[1:]:
+            if is_term(x):
+                go(x)
+            elif isinstance(x, tuple):
+                for y in x:
+                    if is_term(y):
+                        go(y)
+                    elif isinstance(y, tuple):
+                        for z in y:
+                            go(z)
+    go(k)
+    return out
+
+
 def check_key_function(model: Model, f: Func, self_type=None, param_types: dict | None = None):
     """-> (problems: list[str], n_paths, sample) for one key function (or an explicit __lt__)"""
     ev = Evaluator(model, prim_methods={"to_y0", "to_text", "to_latex"})
@@ -170,6 +300,8 @@ def check_key_function(model: Model, f: Func, self_type=None, param_types: dict 
         for pos, kind in _flatten(_kind(k, ev)):
             by_pos.setdefault(pos, set()).add(kind)
         for why in _lossy_reads(k, ev):
+            problems.append("a compared field is not read as it is: " + why)
+        for why in _tristate_collapses(k, set(args) | ({slf[1]} if slf else set())):
             problems.append("a compared field is not read as it is: " + why)
     for pos, kinds in sorted(by_pos.items(), key=lambda kv: repr(kv[0])):
         where = "component " + (".".join(str(i) for i in pos) if pos else "(whole key)")
